@@ -455,8 +455,13 @@ fn loop_device_too_small(rep: &Report, seed: u64) {
         };
         let dev = node.display().to_string();
         let result = (|| {
-            for (force, so) in [(true, false), (false, true)] {
-                let spec = CloneSpec { archive: p(&arch.path), output: std::path::PathBuf::from(&dev), force, seed_output: so, ..Default::default() };
+            // the device named directly, and through a symbolic link (/dev/disk/by-label/...)
+            let link = dir.join("by-label-link");
+            let _ = std::fs::remove_file(&link);
+            std::os::unix::fs::symlink(&node, &link).map_err(|e| e.to_string())?;
+            for (force, so, via_link) in [(true, false, false), (false, true, false), (true, false, true), (false, true, true)] {
+                let named = if via_link { link.clone() } else { std::path::PathBuf::from(&dev) };
+                let spec = CloneSpec { archive: p(&arch.path), output: named, force, seed_output: so, ..Default::default() };
                 let mut run = Run::new(&dir, "clone", scn::clone_args(&spec));
                 run.watch = vec![std::path::PathBuf::from(&dev)];
                 let o = proc::run(&run);
@@ -472,7 +477,11 @@ fn loop_device_too_small(rep: &Report, seed: u64) {
                     return Err("clone onto a too small loop device was refused but the device content changed".to_string());
                 }
                 rep.count("refusals.real_loop_device_too_small", 1);
+                if via_link {
+                    rep.count("refusals.real_loop_device_too_small_via_symlink", 1);
+                }
             }
+            let _ = std::fs::remove_file(&link);
             Ok(())
         })();
         let _ = std::fs::remove_file(&node);
